@@ -383,13 +383,13 @@ def _tagstream(ctx, strings):
 
 
 WF_CONFIGS = ["default", "or", "or-scaled", "multifield", "modelled-all", "fuzzy", "gtlt",
-              "copyfield", "dateparse", "everything", "default-k", "default-p"]
+              "copyfield", "dateparse", "everything", "default-k", "default-p", "multifield-g"]
 # configurations whose other filters leave a tree of plain words/phrases alone: the real
 # filterize() tree must be the Lean `outSeq` itself
 WF_PLAIN = {"default", "or", "or-scaled", "fuzzy", "gtlt", "default-k", "default-p"}
 
 
-WF_RICH = {"default", "or", "or-scaled", "gtlt", "multifield"}
+WF_RICH = {"default", "or", "or-scaled", "gtlt", "multifield", "multifield-g"}
 
 
 def _wf_work(args):
@@ -580,6 +580,23 @@ def _wellformed(ctx):
         rcases.append([G._range_atom(rng, rng.choice(("t", "k")), fielded=False)])
         rcases.append([("atom", w), G._range_atom(rng, "t", fielded=False)])
         rcases.append([("op", "or", [("atom", w), G._range_atom(rng, "k", fielded=False)])])
+    # ranges on the n-gram fields (self-parsing field types that leave ranges to the parser) next to
+    # other clauses, under NOT, inside a field group; and without a prefix on a Multifield parser one
+    # of whose default fields is an n-gram field (every unprefixed atom of these cases is a range)
+    mgcases = []
+    for _ in range(ctx.budget(10, 60)):
+        w = rng.sample(G.WORDS, 2)
+        gf = rng.choice(sorted(G.GRAM_FIELDS))
+        rcases.append([("atom", w[0]), G._range_atom(rng, gf)])
+        rcases.append([("op", "and", [("atom", w[0]), ("not", G._range_atom(rng, gf))])])
+        rcases.append([("op", "or", [("field", "k", ("atom", w[1])), G._range_atom(rng, gf)])])
+        rcases.append([("field", gf, ("paren", [("op", "or", [G._range_atom(rng, gf, fielded=False),
+                                                              G._range_atom(rng, gf, fielded=False)])]))])
+        mgcases.append([G._range_atom(rng, "g", fielded=False)])
+        mgcases.append([("field", "t", ("atom", w[0])), G._range_atom(rng, "g", fielded=False)])
+        mgcases.append([("op", "or", [("field", "k", ("atom", w[1])), G._range_atom(rng, "g", fielded=False)])])
+        mgcases.append([("op", "and", [("field", "t", ("atom", w[0])), ("not", G._range_atom(rng, "g", fielded=False))])])
+        mgcases.append([("field", "t", ("atom", w[0])), G._range_atom(rng, rng.choice(G.RANGE_FIELDS))])
     # an empty range under AND / NOT (normalize() makes it NullQuery: recorded finding)
     rcases.append([("op", "and", [("field", "k", ("atom", "[juliet TO juliet}")), ("field", "t", ("atom", "bravo"))])])
     # two nested text ranges on one field under AND (normalize() merges them: recorded finding)
@@ -595,7 +612,7 @@ def _wellformed(ctx):
                                       ("not", ("field", f1, ("atom", w[3])))])])
     jobs = []
     for name in WF_CONFIGS:
-        cs = gcases if name == "gtlt" else (rcases if name in WF_RICH else cases)
+        cs = gcases if name == "gtlt" else mgcases if name == "multifield-g" else (rcases if name in WF_RICH else cases)
         for a in range(0, len(cs), 125):
             jobs.append((name, cs[a:a + 125]))
     recs = [r for part in ctx.pmap(_wf_work, jobs) for r in part]
@@ -771,8 +788,11 @@ EXPLANATION = (
     "real filter pipeline the Lean `outSeq`, and the documents found by parse(text) must be the documents the Lean "
     "`evalSeq` selects, the leaves being decided by an oracle that does not use the parser: words, phrases, wildcard "
     "patterns with one or several stars (fnmatch over the stored words), comparisons in all six spellings of "
-    "GtLtPlugin, and ranges with the four bracket combinations on date (partial dates = periods), numeric and text "
-    "fields (stored values compared directly), with and without a field prefix, on single-field and Multifield parsers."
+    "GtLtPlugin, and ranges with the four bracket combinations on date (partial dates = periods), numeric, text and "
+    "n-gram fields (NGRAM, NGRAMWORDS with and without at='start': self-parsing field types that leave ranges to the "
+    "parser; the oracle cuts the stored values into grams itself), stored values compared directly, with and without a "
+    "field prefix, next to other clauses, under NOT and inside field groups, on single-field and Multifield parsers "
+    "(one of them with an n-gram field among its default fields)."
 )
 ASSUMPTIONS = [
     "the taggers that are real regular expressions (everything but brackets, white space and the default-shaped "
@@ -810,7 +830,7 @@ MANIFEST = {
                   "object that selects exactly the documents of the reading (None cases stated separately); (f) the six "
                   "comparison spellings of GtLtPlugin denote the right half-lines and a wildcard is only rewritten to a prefix "
                   "query when both select the same words. Tied to the code on every run by a differential correspondence "
-                  "check on the real tag()/filterize()/query(), plus grammar-aware end-to-end fuzzing of all 48 "
+                  "check on the real tag()/filterize()/query(), plus grammar-aware end-to-end fuzzing of all 49 "
                   "configurations x 20 field types (parse and search) and generated well-formed expressions evaluated "
                   "against the Lean reading.",
     "level_note": "Level `other`: proof for the modelled filter pipeline; the regular expressions of the taggers, the "
